@@ -44,7 +44,7 @@ META = dict(
     need=["energy_consistency_checks", "controller_decisions", "converged_claims_verified",
           "inversion_enabler_solutions", "nstep_termination_checks", "cg_runs"],
     quick=dict(cases=800, workers=6, budget_s=80),
-    thorough=dict(cases=30000, workers=16, budget_s=700),
+    thorough=dict(cases=50000, workers=16, budget_s=700),
     design_ref="DESIGN.md §5 C14",
     level_text=("generated HPD systems / controller configurations, every controller event of the real "
                 "ConjugateGradient re-evaluated densely; exploration, not exhaustive"),
